@@ -266,6 +266,10 @@ fn templates(vars: &[(String, u32)], ell: &str, rich: bool) -> Vec<(&'static str
         })));
     }
     out.push(("vector", Cell::Vector(with_ellipses(sym(&v0.0), v0.1, ell))));
+    // a vector as the repeated sub-template: the variable once, twice, and next to a constant
+    out.push(("vector-subtemplate", Cell::new_list(with_ellipses(Cell::Vector(vec![sym(&v0.0)]), v0.1, ell))));
+    out.push(("vector-subtemplate-twice", Cell::new_list(with_ellipses(Cell::Vector(vec![sym(&v0.0), sym(&v0.0)]), v0.1, ell))));
+    out.push(("vector-subtemplate-const", Cell::new_list(with_ellipses(Cell::Vector(vec![sym(&v0.0), num(9)]), v0.1, ell))));
     out.push(("nested-quote", Cell::new_list(vec![sym("k"), Cell::new_list(vec![sym("quote"), Cell::new_list(with_ellipses(sym(&v0.0), v0.1, ell))])])));
     {
         let mut parts = with_ellipses(sym(&v0.0), v0.1, ell);
